@@ -10,8 +10,8 @@
 EXTENDS TssSigning, IOUtils, Json
 
 CONSTANTS Depth, InitDESet, MaxPerBlock, SrcSet
-VARIABLES script, ide, per0, nb
-gvars == <<vars, script, ide, per0, nb>>
+VARIABLES script, ide, per0, att0, de0, nb
+gvars == <<vars, script, ide, per0, att0, de0, nb>>
 
 Ord(v) == CHOOSE i \in 1..Cardinality(Addr) : ToString(v) = "m" \o ToString(i) \/ (v \in Stranger /\ i = Cardinality(Addr))
 Rank(v, S) == Cardinality({u \in S : Ord(u) <= Ord(v)})
@@ -30,6 +30,8 @@ GInit ==
     /\ params \in [t : TSet, maxDE : MaxDESet, maxAtt : MaxAttSet, period : PeriodSet, penalty : PenaltySet]
     /\ ide <= params.maxDE
     /\ per0 = params.period
+    /\ att0 = params.maxAtt
+    /\ de0 = params.maxDE
     /\ nb = 0
     /\ q = [a \in Addr |-> IF a \in Member THEN [i \in 1..ide |-> i] ELSE <<>>]
     /\ nser = [a \in Addr |-> IF a \in Member THEN ide ELSE 0]
@@ -47,7 +49,7 @@ GInit ==
     /\ tr = "none" /\ trSig = 0
     /\ out = "init" /\ pen = {} /\ ret = <<>>
     /\ usedBy = [t \in Token |-> {}]
-    /\ pchg = FALSE
+    /\ pchg = [p |-> FALSE, a |-> FALSE, d |-> FALSE]
 
 \* the last step is a plain EndBlock (TLC evaluates the Emit invariant on every candidate successor);
 \* at most MaxPerBlock messages per block so that a walk spans several expiry periods; the stranger
@@ -108,13 +110,21 @@ GNext ==
           /\ ~Last /\ count > 0
           /\ SetPeriod(p)
           /\ script' = Append(script, [e |-> "SetPeriod", p |-> p])
+    \/ \E m \in MaxAttSet :
+          /\ ~Last /\ count > 0
+          /\ SetMaxAtt(m)
+          /\ script' = Append(script, [e |-> "SetMaxAtt", m |-> m])
+    \/ \E m \in MaxDESet :
+          /\ ~Last /\ \E a \in Addr : q[a] # <<>>
+          /\ SetMaxDE(m)
+          /\ script' = Append(script, [e |-> "SetMaxDE", m |-> m])
 
-GSpec == GInit /\ [][GNext /\ ide' = ide /\ per0' = per0 /\ (h' = h => nb' = nb + 1)]_gvars
+GSpec == GInit /\ [][GNext /\ ide' = ide /\ per0' = per0 /\ att0' = att0 /\ de0' = de0 /\ (h' = h => nb' = nb + 1)]_gvars
 
 Emit ==
     TLCGet("level") = Depth =>
         Serialize(<<[fam |-> "TssSigning",
-                     c |-> [t |-> params.t, maxDE |-> params.maxDE, maxAtt |-> params.maxAtt,
+                     c |-> [t |-> params.t, maxDE |-> de0, maxAtt |-> att0,
                             period |-> per0, penalty |-> params.penalty, initDE |-> ide,
                             oracle |-> PreSet # {0}, tunnel |-> (PostSet # {0} \/ "tunnel" \in SrcSet), trans |-> TransOn],
                      steps |-> script]>>,
